@@ -60,8 +60,8 @@ MUTANTS = [
   "            y0 = p[0] - p[1]/tana\n            nappe = 1 if y0 < p[0] else -1",
   "            y0 = p[0] - p[1]/tana\n            nappe = -1 if y0 < p[0] else 1"),
  ('C02-7', 'C02', K + 'Surface/ConversionSurfaceMCNPToT4.py',
-  "    return SurfaceCollection([(cone, 1), (plane, -int(nappe))])",
-  "    return SurfaceCollection([(cone, 1), (plane, int(nappe))])"),
+  "    return SurfaceCollection([(cone, 1), (plane, -int(nappe) * flip)])",
+  "    return SurfaceCollection([(cone, 1), (plane, int(nappe) * flip)])"),
  # ---- C03
  ('C03-1', 'C03', K + 'Surface/MacroBodies.py',
   "    side_bc = 1 if scal(normal_bc, vec_a) < 0. else -1",
@@ -132,8 +132,8 @@ MUTANTS = [
   "        if isCellRef(p_tree):\n            new_cell_key = self.cell_transform(p_tree.cell, p_transf)\n            return CellRef(new_cell_key)",
   "        if isCellRef(p_tree):\n            return p_tree"),
  ('C05-5', 'C05', K + 'FileHandlers/Parser/ParseMCNPCell.py',
-  "        elif '*' in elt:\n            fill_params = [float(x) for x in fill_params]\n            fill_params[3:] = list(map(to_cos, fill_params[3:12]))",
-  "        elif '*' in elt:\n            fill_params = [float(x) for x in fill_params]\n            fill_params[3:] = list(fill_params[3:12])"),
+  "            fill_params[3:12] = list(map(to_cos, fill_params[3:12]))",
+  "            fill_params[3:12] = list(fill_params[3:12])"),
  ('C05-6', 'C05', K + 'Volume/CellConversion.py',
   "                else:\n                    new_cell.geometry = ('*', CellRef(key),\n                                         CellRef(new_elt_key))",
   "                else:\n                    new_cell.geometry = ('*', CellRef(new_elt_key),\n                                         CellRef(new_elt_key))"),
@@ -339,8 +339,8 @@ MUTANTS = [
   "        for l in self.lines:\n            res.extend(re_comment.split(l))",
   "        for l in self.lines[:1]:\n            res.extend(re_comment.split(l))\n        res.extend(self.lines[1:])"),
  ('C14-4', 'C14', K + 'FileHandlers/Parser/ParseMCNPCell.py',
-  "        option = (option.lower().replace('(', ' ').replace(')', ' ')",
-  "        option = (option.replace('(', ' ').replace(')', ' ')"),
+  "        option = (option.lower().replace('(', ' ( ').replace(')', ' ) ')",
+  "        option = (option.replace('(', ' ( ').replace(')', ' ) ')"),
  ('C14-5', 'C14', 'MIP/mip/cards.py',
   "re_continuation_prev = re.compile(r'[^$]*&\\s*($|\\$.*$)')",
   "re_continuation_prev = re.compile(r'[^$]*&\\s*$')"),
